@@ -671,3 +671,10 @@ add("C17", "csv-items-through-set", "codemodder/cli.py",
 add("C17", "benign-csv-without-dedup", "codemodder/cli.py",
     [("        items = list(dict.fromkeys(values.split(\",\")).keys())", "        items = [item for item in values.split(\",\")]")],
     "silent")
+add("C02", "add-needed-import-skips-when-seen-anywhere", LT,
+    [("        # TODO: do we need to check if this import already exists?\n        AddImportsVisitor.add_needed_import(self.context, module, obj)",
+      "        if obj is None and any(a.evaluated_name == module for n in matchers.findall(self.context.wrapper.module, matchers.Import()) for a in n.names):\n            return\n        AddImportsVisitor.add_needed_import(self.context, module, obj)")],
+    "fire", "R-IMPORT-SCHEDULED", "add_needed_import")
+add("C02", "benign-add-needed-import-keywords", LT,
+    [("        AddImportsVisitor.add_needed_import(self.context, module, obj)", "        AddImportsVisitor.add_needed_import(self.context, module=module, obj=obj)")],
+    "silent")
